@@ -88,7 +88,7 @@ func (p *ParserData) AddDiceDetail(begin IntType, end IntType) {
 
 func (e *ParserData) AddOp(operator CodeType) {
 	var val interface{} = nil
-	if operator == typeJne || operator == typeJmp {
+	if operator == typeJne || operator == typeJmp || operator == typeJe || operator == typeJeDup {
 		val = IntType(0)
 	}
 	e.WriteCode(operator, val)
